@@ -152,6 +152,7 @@ func C20(c *Ctx) {
 	r.Rule("C20-a", "value(staticCode) == \"\\n\" + text of builder/static_code.go after the delimiter line (+ \"\\n\"), likewise rangeTable0; the generator's delimiter/header literals are the ones assumed; no back-quote in the template")
 	r.Rule("C20-b", "for each generated parser: gofmt(static tail from `var ( // errNoRule`) == gofmt(variant for the recipe's flags [+ rangeTable iff referenced]); flags from the Makefile and properties of the literal (stateCodeExpr ⇒ GlobalState, leader: ⇒ LeftRecursion) do not contradict")
 	r.Rule("C20-c", "set of *.peg under test/, examples/, grammar/ == set of grammars with a Makefile recipe; every recipe target exists and carries the generated-code header; every file with the header has a recipe")
+	r.Rule("C20-e", "sibling agreement of the two front-ends on literal decoding: the value passed to ast.NewLitMatcher is, in bootstrap/parser.go and in the generated pigeon.go alike, the result of strconv.Unquote on the raw token text (helpers are resolved one level); class, any-matcher, identifier and code-block values are the raw token text in both")
 	r.Rule("C20-d", "for artifacts generated without -optimize-grammar: every position{line,col,offset} in the grammar literal satisfies line = 1 + newlines before offset, col = 1 + runes since the last newline; rule names, rule references, character-class texts and `.` occur at their offsets in the .peg")
 
 	repo := load.Repo()
@@ -175,6 +176,8 @@ func C20(c *Ctx) {
 		ok := err == nil && strings.Contains(strings.ReplaceAll(string(b), " ", ""), it.want)
 		r.Check(ok, "C20-b", "A."+it.file+":builder-options", "", it.file, "options as assumed for the artifact comparison ("+it.want+")", "the tool no longer builds with "+it.want+": the flags assumed for its artifact are wrong")
 	}
+	// ---- e: sibling agreement on literal decoding
+	c20Decoders(c)
 	// ---- c: coverage
 	c20Coverage(c, repo, arts)
 	// ---- b, d per artifact
@@ -518,4 +521,99 @@ func snippet(b []byte, off int) string {
 		return ""
 	}
 	return string(b[off:end])
+}
+
+// decodersOf returns, for every call of constructor ctor in pkg files selected by keep, the set of strconv functions
+// that produce its value argument (resolving one level of local helper functions), or "raw" when the argument is
+// the token text itself.
+func decodersOf(c *Ctx, g *load.G, pkgSuffix, ctor string, keep func(file string) bool) (map[string]bool, int) {
+	p := g.Pkg(pkgSuffix)
+	out := map[string]bool{}
+	n := 0
+	if p == nil {
+		return out, 0
+	}
+	// strconv functions used by local helpers
+	helperUses := map[string]map[string]bool{}
+	for _, fd := range load.AllFuncDecls(p) {
+		if fd.Body == nil {
+			continue
+		}
+		m := map[string]bool{}
+		for _, ce := range callsIn(fd.Body) {
+			if cn := callName(ce); strings.HasPrefix(cn, "strconv.") {
+				m[cn] = true
+			}
+		}
+		helperUses[fd.Name.Name] = m
+	}
+	for _, fd := range load.AllFuncDecls(p) {
+		if fd.Body == nil || !keep(g.Fset.Position(fd.Pos()).Filename) {
+			continue
+		}
+		for _, ce := range callsIn(fd.Body) {
+			if callName(ce) != "ast."+ctor || len(ce.Args) < 2 {
+				continue
+			}
+			n++
+			arg := ce.Args[1]
+			id, ok := arg.(*ast.Ident)
+			if !ok {
+				out["raw:"+nospace(arg)] = true
+				continue
+			}
+			// definitions of the identifier in this function
+			found := false
+			ast.Inspect(fd.Body, func(nd ast.Node) bool {
+				as, ok := nd.(*ast.AssignStmt)
+				if !ok || len(as.Rhs) != 1 {
+					return true
+				}
+				for _, l := range as.Lhs {
+					if nospace(l) != id.Name {
+						continue
+					}
+					found = true
+					rc, ok := as.Rhs[0].(*ast.CallExpr)
+					if !ok {
+						if _, isLit := as.Rhs[0].(*ast.BasicLit); isLit {
+							continue // constant fallback (error path)
+						}
+						out["raw:"+nospace(as.Rhs[0])] = true
+						continue
+					}
+					cn := callName(rc)
+					switch {
+					case strings.HasPrefix(cn, "strconv."):
+						out[cn] = true
+					case helperUses[callSel(rc)] != nil && len(helperUses[callSel(rc)]) > 0:
+						for k := range helperUses[callSel(rc)] {
+							out[k] = true
+						}
+					default:
+						out["call:"+cn] = true
+					}
+				}
+				return true
+			})
+			if !found {
+				out["raw:"+id.Name] = true
+			}
+		}
+	}
+	return out, n
+}
+
+func c20Decoders(c *Ctx) {
+	r := c.R
+	g := c.G()
+	if g == nil {
+		return
+	}
+	boot, nb := decodersOf(c, g, "bootstrap", "NewLitMatcher", func(f string) bool { return strings.HasSuffix(f, "/bootstrap/parser.go") })
+	gen, ng := decodersOf(c, g, "", "NewLitMatcher", func(f string) bool { return strings.HasSuffix(f, "/pigeon.go") })
+	bs, gs := strings.Join(keysOf(boot), ","), strings.Join(keysOf(gen), ",")
+	ok := nb >= 1 && ng >= 1 && bs == "strconv.Unquote" && gs == "strconv.Unquote"
+	r.Check(ok, "C20-e", "A.front-ends:literal-decoding-agrees", "", "bootstrap/parser.go, pigeon.go", "both front-ends decode literal tokens with strconv.Unquote only",
+		fmt.Sprintf("bootstrap front-end decodes literal values with {%s} (%d sites), generated front-end with {%s} (%d sites): for some literal spellings the two front-ends build different LitMatcher values (e.g. '\\xe9' is the byte 0xE9 for strconv.Unquote but U+00E9 for UnquoteChar)", bs, nb, gs, ng))
 }
